@@ -154,6 +154,7 @@ Inductive obs :=
 | OCall (a : atom)
 (* deliberately broken primitives (never used by the generator; see Spec.v, *_refuted) *)
 | OConcatL_broken (l : lit)               (* ArrayConcat dropping the rgt operand's contracts *)
+| OConcatL_prefix (l : lit)               (* ArrayConcat as it was before 95e63eb *)
 | OValues_broken.                         (* RecordValues ignoring the pending contracts *)
 
 (** Unevaluated components, values in weak head normal form, function values. *)
@@ -202,12 +203,20 @@ Fixpoint ctr_eqb (a b : ctr) : bool :=
   | _, _ => false
   end.
 
-(** The test of ArrayConcat: same number of pending contracts, pairwise equal ([contract_eq]
-    compares the contracts, not the labels). *)
+(** The test of ArrayConcat: same number of pending contracts, pairwise equal contracts
+    ([contract_eq]) whose labels have the same polarity (since 95e63eb). *)
 Fixpoint pend_eqb (p q : list pc) : bool :=
   match p, q with
   | [], [] => true
-  | (_, c) :: p', (_, d) :: q' => ctr_eqb c d && pend_eqb p' q'
+  | (b, c) :: p', (b', d) :: q' => Bool.eqb b b' && ctr_eqb c d && pend_eqb p' q'
+  | _, _ => false
+  end.
+
+(** The test as it was before 95e63eb: the labels are not looked at. *)
+Fixpoint pend_eqb_nolabel (p q : list pc) : bool :=
+  match p, q with
+  | [], [] => true
+  | (_, c) :: p', (_, d) :: q' => ctr_eqb c d && pend_eqb_nolabel p' q'
   | _, _ => false
   end.
 
@@ -308,6 +317,15 @@ Definition prim_array_concat (es1 : list thunk) (p1 : list pc) (es2 : list thunk
   if is_inline_empty es1 p1 then VArr es2 p2
   else if is_inline_empty es2 p2 then VArr es1 p1
   else if pend_eqb p1 p2 then VArr (es1 ++ es2) p1
+  else VArr (arr_elems es1 p1 ++ arr_elems es2 p2) [].
+
+(** ArrayConcat before 95e63eb (kept for the refutation of the blame-label statement on that
+    variant): the lazy branch is taken whatever the labels. *)
+Definition prim_array_concat_prefix (es1 : list thunk) (p1 : list pc) (es2 : list thunk) (p2 : list pc)
+  : lval :=
+  if is_inline_empty es1 p1 then VArr es2 p2
+  else if is_inline_empty es2 p2 then VArr es1 p1
+  else if pend_eqb_nolabel p1 p2 then VArr (es1 ++ es2) p1
   else VArr (arr_elems es1 p1 ++ arr_elems es2 p2) [].
 
 (** The broken variant used for the refutation: the rgt operand's contracts are dropped. *)
@@ -746,6 +764,10 @@ Section Sem.
         bind (ev (thunk_of_lit l)) (fun w => bind (as_arr ETypeErr w) (fun '(es1, p1) =>
         bind (ev t) (fun v => bind (as_arr ETypeErr v) (fun '(es2, p2) =>
         Ok (prim_array_concat_broken es1 p1 es2 p2)))))
+    | OConcatL_prefix l =>
+        bind (ev (thunk_of_lit l)) (fun w => bind (as_arr ETypeErr w) (fun '(es1, p1) =>
+        bind (ev t) (fun v => bind (as_arr ETypeErr v) (fun '(es2, p2) =>
+        Ok (prim_array_concat_prefix es1 p1 es2 p2)))))
     | OSlice s e =>  (* | IndexedArrayFun-like contract: bad bounds are the caller's fault *)
         bind (ev t) (fun v => bind (as_arr EBlameNeg v) (fun '(es, p) =>
         match prim_array_slice s e es p with Err _ => Err EBlameNeg | r => r end))
